@@ -36,6 +36,9 @@ class MultitaskKernel(Kernel):
         **kwargs,
     ):
         """"""
+        # forward() calls data_covar_module.forward directly, so (as in ScaleKernel) we have to select its active dims
+        if data_covar_module.active_dims is not None:
+            kwargs["active_dims"] = data_covar_module.active_dims
         super(MultitaskKernel, self).__init__(**kwargs)
         self.task_covar_module = IndexKernel(
             num_tasks=num_tasks, batch_shape=self.batch_shape, rank=rank, prior=task_covar_prior
